@@ -219,6 +219,9 @@ inductive Op where
   | get (w : Nat) (env : Str)    -- worker `w` makes a decision for sampler key `env`
   | peers (n : Nat)              -- membership is now `n` peers, callback fires
   | peersFail                    -- the peer query fails from now on, callback fires
+  | peerset (n : Nat)            -- the peer source now answers `n` peers; the callback has not run yet
+  | peersetFail                  -- the peer source now fails; the callback has not run yet
+  | peercb                       -- the registered callback `updatePeerCounts` runs
   | setcfg (j : Nat)             -- rules file replaced by configuration `j`
   | clear                        -- `ClearDynsamplers`
   | wreload (w : Nat)            -- worker `w` handles its reload signal
@@ -235,6 +238,9 @@ def step (cfgs : List Config) (st : St) : Op → St
         { st1 with caches := AList.put st1.caches (w, env) { slots := slots, epoch := st1.epoch } }
   | .peers n => updatePeers { st with actual := some n }
   | .peersFail => updatePeers { st with actual := none }
+  | .peerset n => { st with actual := some n }
+  | .peersetFail => { st with actual := none }
+  | .peercb => updatePeers st
   | .setcfg j =>
     match cfgs[j]? with
     | some c => { st with cfg := c }
@@ -267,5 +273,18 @@ def lastGood (actual0 : Option Nat) (ops : List Op) : Nat :=
   ops.foldl (fun pc o => match o with
     | .peers n => if n > 0 then n else pc
     | _ => pc) (refreshCount actual0 1)
+
+/-- what the peer source answers after an operation -/
+def srcStep (a : Option Nat) : Op → Option Nat
+  | .peers n => some n
+  | .peerset n => some n
+  | .peersFail => none
+  | .peersetFail => none
+  | _ => a
+
+def srcAnswer (actual0 : Option Nat) (ops : List Op) : Option Nat := ops.foldl srcStep actual0
+
+/-- histories in which every membership change is delivered together with its callback -/
+def NoSplit (ops : List Op) : Prop := ∀ op ∈ ops, (∀ n, op ≠ .peerset n) ∧ op ≠ .peersetFail
 
 end Refinery.Model.SamplerRegistry
